@@ -31,6 +31,7 @@ pub enum Step {
     /// C05.R4 / C15: look at the context's own weak handles (must never keep the actor alive)
     WeakSelf,
     TryFromRegistry(u8),
+    ExportWeakSender,
 }
 
 impl Step {
@@ -53,6 +54,7 @@ impl Step {
             Step::CallAddr(..) => "call_addr",
             Step::WeakSelf => "weak_self",
             Step::TryFromRegistry(_) => "try_from_registry",
+            Step::ExportWeakSender => "export_weak_sender",
         }
     }
 }
@@ -122,6 +124,7 @@ fn with_g<R>(f: impl FnOnce(&mut Globals) -> R) -> R {
 
 pub fn reset_globals() {
     reset_ready_streams();
+    *EXPORTED.lock().unwrap_or_else(|e| e.into_inner()) = None;
     with_g(|g| *g = Globals::default());
 }
 pub fn set_default_spec(k: usize, spec: Arc<Spec>) {
@@ -472,6 +475,11 @@ impl<const KK: usize> Probe<KK> {
                     let ok = matches!(&r, Ok(rep) if rep.msg == uid);
                     log::log(K::Effect { msg, actor, step: i, what: name, arg: uid, ok });
                 }
+                Step::ExportWeakSender => {
+                    let ws = ctx.weak_sender::<Fire>();
+                    EXPORTED.lock().unwrap_or_else(|e| e.into_inner()).get_or_insert_with(HashMap::new).insert(self.tag, ws);
+                    log::log(K::Effect { msg, actor, step: i, what: name, arg: 0, ok: true });
+                }
                 Step::TryFromRegistry(k) => {
                     use hannibal::Service as _;
                     // (what it returns depends on who holds the registry lock at this instant: not an oracle input)
@@ -661,6 +669,13 @@ impl VStream {
     pub fn new(spec: StreamSpec) -> VStream {
         VStream { sid: log::uid(), spec, idx: 0, left: 0, sleeping: None, started_burst: false, yielded: 0, ended: false }
     }
+}
+
+/// weak senders that actors exported from their own context (tag -> handle)
+static EXPORTED: Mutex<Option<HashMap<u32, hannibal::WeakSender<Fire>>>> = Mutex::new(None);
+
+pub fn take_exported(tag: u32) -> Option<hannibal::WeakSender<Fire>> {
+    EXPORTED.lock().unwrap_or_else(|e| e.into_inner()).as_ref().and_then(|m| m.get(&tag).cloned())
 }
 
 /// items each live harness stream could hand out right now without waiting (sid -> count)
